@@ -635,20 +635,24 @@ CapCase makeCapCase(std::size_t cap, std::size_t bodyLen, int framing, std::size
 /// Judges one delivery of a cap case. Empty signature = pass.
 Failure judgeCapRun(const CapCase &k, const ClientRun &r)
 {
-  auto where = [&] { return pbt::Fmt() << " [cap=" << k.cap << " body=" << k.exp.body.size() << " stream=" << k.wire.size() << " bytes, "
-                                       << (k.chunked ? "chunked x" + std::to_string(k.chunkSize) : k.closeDelimited ? std::string("close-delimited") : std::string("content-length"))
-                                       << ", " << showCuts(r.cuts, k.wire.size()) << "]"; };
-  if (r.threwOther) return {"C15/client/foreign-exception-leaves-framer", "exception other than HttpFramingError: " + r.what + where().str()};
+  auto where = [&]
+  {
+    return (pbt::Fmt() << " [cap=" << k.cap << " body=" << k.exp.body.size() << " stream=" << k.wire.size() << " bytes, "
+                       << (k.chunked ? "chunked x" + std::to_string(k.chunkSize) : k.closeDelimited ? std::string("close-delimited") : std::string("content-length")) << ", "
+                       << showCuts(r.cuts, k.wire.size()) << "]")
+      .str();
+  };
+  if (r.threwOther) return {"C15/client/foreign-exception-leaves-framer", "exception other than HttpFramingError: " + r.what + where()};
   if (r.complete && r.bodySize > k.cap)
     return {"C15/client/body-beyond-cap-returned", pbt::Fmt() << "a response body of " << r.bodySize << " bytes was returned although the configured response cap is " << k.cap
-                                                              << where().str()};
+                                                              << where()};
   if (k.wire.size() <= k.cap)
   {
-    if (r.threwFraming) return {"C15/client/valid-response-rejected", "HttpFramingError although the whole stream fits the cap: " + r.what + where().str()};
-    if (!r.complete) return {"C15/client/valid-response-never-completes", "response within the cap not framed" + where().str()};
-    if (r.canon != k.exp.canon(false)) return {"C15/client/response-altered", "response within the cap returned altered" + where().str()};
+    if (r.threwFraming) return {"C15/client/valid-response-rejected", "HttpFramingError although the whole stream fits the cap: " + r.what + where()};
+    if (!r.complete) return {"C15/client/valid-response-never-completes", "response within the cap not framed" + where()};
+    if (r.canon != k.exp.canon(false)) return {"C15/client/response-altered", "response within the cap returned altered" + where()};
   }
-  if (r.complete && r.canon != k.exp.canon(false)) return {"C15/client/response-altered", "returned response differs from the encoded one" + where().str()};
+  if (r.complete && r.canon != k.exp.canon(false)) return {"C15/client/response-altered", "returned response differs from the encoded one" + where()};
   return {};
 }
 
@@ -905,7 +909,33 @@ PBT_PROPERTY(loopback_client)
   for (auto h : y.fin.hot) y.hot.push_back(y.wire.size() + h);
   y.wire += y.fin.wire;
   Cuts cuts = drawnCuts(src, y.wire.size(), y.hot);
-  c.describe(pbt::Fmt() << y.method << " <- " << refhttp::showBytes(y.wire, 600) << " " << showCuts(cuts, y.wire.size()));
+  // every third case: a small configured response cap (real Config fields) and a body around it, many small chunks,
+  // written in several segments - the cap check lives in executeRequest's receive loop, which only this route runs
+  std::size_t cap = 0;
+  if (src.coin(1, 3))
+  {
+    cap = (std::size_t)src.oneOf<std::int64_t>({4096, 8192, 16384});
+    std::size_t bodyLen;
+    switch (src.weighted({2, 1, 3, 2}))
+    {
+    case 0: bodyLen = cap - (std::size_t)src.range(300, 2000); break;
+    case 1: bodyLen = cap; break;
+    case 2: bodyLen = cap + (std::size_t)src.range(1, 600); break;
+    default: bodyLen = cap + (std::size_t)src.range(601, (std::int64_t)cap * 2); break;
+    }
+    CapCase k = makeCapCase(cap, bodyLen, (int)src.weighted({2, 5, 2}), (std::size_t)src.oneOf<std::int64_t>({7, 16, 100, 255, 1000}), src.coin(1, 4), (unsigned)src.range(0, 25));
+    y = Exchange{};
+    y.method = "GET";
+    y.wire = k.wire;
+    y.fin.exp = k.exp;
+    y.fin.chunked = k.chunked;
+    y.fin.closeDelimited = k.closeDelimited;
+    cuts.clear();
+    std::size_t step = (std::size_t)src.range(300, 3000);
+    for (std::size_t kpos = step; kpos < y.wire.size() && cuts.size() < 40; kpos += step) cuts.push_back(kpos);
+    c.label(bodyLen > cap ? "small cap: body above the cap" : (y.wire.size() <= cap ? "small cap: whole stream within the cap" : "small cap: body within, stream above"));
+  }
+  c.describe(pbt::Fmt() << y.method << " cap=" << cap << " <- " << refhttp::showBytes(y.wire, 600) << " " << showCuts(cuts, y.wire.size()));
   if (y.fin.chunked) c.label("chunked");
   if (y.fin.closeDelimited) c.label("close-delimited");
   if (y.interims) c.label("interim 1xx");
@@ -958,8 +988,14 @@ PBT_PROPERTY(loopback_client)
   cfg.connectTimeout = std::chrono::milliseconds(20000);
   cfg.requestTimeout = std::chrono::milliseconds(30000);
   cfg.reuseConnections = false;
+  if (cap)
+  {
+    cfg.maxResponseBytes = cap; // effective cap = max(maxResponseBytes, jsonConfig.maxPayloadSize)
+    cfg.jsonConfig.maxPayloadSize = cap;
+  }
   std::string url = "http://127.0.0.1:" + std::to_string(port) + "/x";
   bool got = false, framingErr = false;
+  std::size_t gotBody = 0;
   std::string what, canon;
   {
     iora::network::HttpClient cl(cfg);
@@ -975,6 +1011,7 @@ PBT_PROPERTY(loopback_client)
       e.version = r.httpVersion;
       for (auto &kv : r.headers) e.fields.push_back(refhttp::Field{kv.first, kv.second});
       e.body = r.body;
+      gotBody = r.body.size();
       canon = e.canon(false);
       got = true;
     }
@@ -991,6 +1028,17 @@ PBT_PROPERTY(loopback_client)
   }
   peer.join();
   ::close(lfd);
+  if (cap && got && gotBody > cap)
+  {
+    c.fail("C15/loopback/client/body-beyond-cap-returned", pbt::Fmt() << "HttpClient returned a body of " << gotBody << " bytes with maxResponseBytes = jsonConfig.maxPayloadSize = " << cap);
+    return;
+  }
+  if (cap && y.wire.size() > cap)
+  {
+    // body within the cap but headers/chunk framing push the raw stream over it, or body above the cap: failing is right
+    if (got && canon != y.fin.exp.canon(false)) c.fail("C15/loopback/client/response-altered", "returned response differs from the encoded one");
+    return;
+  }
   if (framingErr) { c.fail("C15/loopback/client/valid-response-rejected", "HttpFramingError over a real socket: " + what); return; }
   if (!got) { c.inconclusive("request failed for a transport reason: " + what); return; }
   if (canon != y.fin.exp.canon(false))
